@@ -3,7 +3,7 @@
 re-enters the construct and (where legal) throws again (C11)."""
 import itertools
 
-WRAPPERS = ["loop", "while", "for", "block", "if", "match", "try", "catch", "call"]
+WRAPPERS = ["loop", "while", "for", "block", "if", "match", "try", "catch", "call", "lambda", "tryl"]
 EXITS = ["break", "continue", "return", "throw", "fatal", "retthrow"]
 
 
@@ -11,7 +11,7 @@ def legal(ws, x):
     """Is exit x under wrappers ws (outermost first) a legal program, and inside the fragment?
     Returns (legal, in_fragment)."""
     # the innermost function boundary
-    last_call = max((i for i, w in enumerate(ws) if w == "call"), default=-1)
+    last_call = max((i for i, w in enumerate(ws) if w in ("call", "lambda")), default=-1)
     inner = ws[last_call + 1:]
     if x in ("break", "continue"):
         loops = [i for i, w in enumerate(inner) if w in ("loop", "while", "for")]
@@ -56,7 +56,7 @@ class Builder:
         w, rest = ws[0], ws[1:]
         v = self.fresh("v")
         c = self.fresh("c")
-        inner = self.wrap(rest, x, depth + 1, in_fn or w == "call")
+        inner = self.wrap(rest, x, depth + 1, in_fn or w in ("call", "lambda"))
         first = self.fresh("first")
         guard = [f"if {first} {{", f"    {first} = false;"] + ["    " + l for l in inner] + ["};"]
         # `k` is declared anew at every level (shadowing): a scope that is not popped, or popped twice,
@@ -86,12 +86,23 @@ class Builder:
         if w == "try":
             return pre + ["try {"] + ind(body) + [f"}} catch {c} {{", f'    println("caught{depth}", {c}.message, {c}.line > 0);', "};",
                           f'println("after try{depth}", k);']
+        if w == "tryl":
+            # a try whose body, when it reaches its end, still throws: the handler installed on entry must be the one in
+            # force after everything the body did (calls that returned, inner constructs that were left)
+            return pre + ["try {"] + ind(body) + [f'    throw("late{depth}");', f"}} catch {c} {{", f'    println("caught{depth}", {c}.message, {c}.line > 0);', "};",
+                          f'println("after tryl{depth}", k);']
         if w == "catch":
             return pre + ["try {", f'    throw("enter{depth}");', f"}} catch {c} {{"] + ind(body) + ["};", f'println("after catch{depth}", k);']
         if w == "call":
             f = self.fresh("f")
             self.fns.append([f"fn {f}() -> int {{", "    let zero = 0;", f"    let k = {5 + depth};"] + ind(pre + body) + ["    0", "}"])
             return [f"println({f}());", f"println({f}());", f'println("after call{depth}", k);']
+        if w == "lambda":
+            # a function literal written right here (inside whatever encloses it) and called twice: its body starts
+            # outside of every enclosing construct; it uses only its own locals (captured variables: open finding V12)
+            f = self.fresh("lam")
+            return [f"let {f} = fn() -> int {{", "    let zero = 0;", f"    let k = {5 + depth};"] + ind(pre + body) + ["    0", "};",
+                    f"println({f}());", f"println({f}());", f'println("after lambda{depth}", k);']
         raise ValueError(w)
 
 
